@@ -370,7 +370,7 @@ def t0w0_case(draw, tier):
     what = draw(st.sampled_from(['t0', 'w0']))
     fr = draw(st.integers(2, 3))
     nn = draw(st.integers(2 * fr + 3, 12))
-    j = draw(st.integers(fr + 1, nn - fr - 1))
+    j = draw(st.one_of(st.integers(fr + 1, nn - fr - 1), st.integers(nn - fr, nn - 1)))      # (second range: the root lies within fit_range points of the largest flow time)
     fs, mult = draw(ms_fileset(nn_range=(nn, nn)))
     fs['shape'] = [what, (j + 0.5) * fs['dn'] * fs['eps']]
     for r in fs['reps']:
@@ -398,8 +398,24 @@ def t0w0_oracle(spec):
         names = sorted(exp[n])
         E.append(pe.Obs([np.array([exp[n][nm][c] for c in sorted(exp[n][nm])]) for nm in names], names,
                         idl=[sorted(exp[n][nm]) for nm in names]))
+    def ref_root(series, fit_range):
+        """The documented definition: linear fit through the `fit_range` points left and right of the first positive value,
+        root of the fitted line.  Window chosen here; the straight-line fit itself is pyerrors' (judged by C07/C08)."""
+        ts = list(series)
+        vals = [float(series[t].value) for t in ts]
+        zc = next((i for i, v in enumerate(vals) if v > 0.0), 0)
+        if zc == 0 or zc - fit_range < 0:
+            raise Skip('root not inside the flow-time window')
+        lo, hi = zc - fit_range, min(zc + fit_range, len(ts))
+        xw, yw = ts[lo:hi], [series[t] for t in ts[lo:hi]]
+        for y_ in yw:
+            y_.gamma_method()
+        par = pe.fits.fit_lin(xw, yw)
+        return -par[0] / par[1]
     try:
         if call['what'] == 't0':
+            ref = ref_root({t: t ** 2 * e - 0.3 for t, e in zip(times, E)}, call['fit_range'])
+        elif False:
             ref = fit_t0({t: t ** 2 * e - 0.3 for t, e in zip(times, E)}, call['fit_range'])
         else:
             t2E = [t ** 2 * e for t, e in zip(times, E)]
@@ -407,9 +423,11 @@ def t0w0_oracle(spec):
             for i in range(1, len(times) - 1):
                 dd[times[i]] = times[i] * (t2E[i + 1] - t2E[i - 1]) / (times[i + 1] - times[i - 1]) - 0.3
             dd[times[-1]] = times[-1] * (t2E[-1] - t2E[-2]) / (times[-1] - times[-2]) - 0.3
-            ref = np.sqrt(fit_t0(dd, call['fit_range'], observable='w0'))
+            ref = np.sqrt(ref_root(dd, call['fit_range']))
+    except Skip:
+        raise
     except Exception as e:
-        raise Skip('reference fit_t0 failed: ' + type(e).__name__)
+        raise Skip('reference root failed: ' + type(e).__name__)
     with common.tempdir() as d:
         prime(FL, d, fs, call, FL.run, spec)
         FL.build(fs).write(d)
